@@ -18,6 +18,7 @@
 #    along with this program.  If not, see <http://www.gnu.org/licenses/>.
 #
 
+from decimal import Decimal
 from bitcoinlib.networks import *
 from bitcoinlib.config.config import NETWORK_DENOMINATORS
 
@@ -187,6 +188,10 @@ class Value:
                 if unknown_code:
                     raise ValueError("Currency symbol not recognised")
             self.value = float(value) * den_input
+            if den_input != 1:
+                # the product of two decimal numbers, rounded once: float(value) * den_input rounds three times
+                # (1e-06 is not exactly one millionth) and made large amounts off by one satoshi
+                self.value = float(Decimal(value) * Decimal(repr(den_input)))
             self.denominator = den_input if den_arg is None else den_arg
         else:
             self.denominator = den_arg or 1.0
